@@ -434,10 +434,11 @@ func walkAggregation(expr string, n *promParser.AggregateExpr) (src []Source) {
 		for _, s = range parseAggregation(expr, n) {
 			s.Aggregation = n
 			s.Operation = "count_values"
-			// Param is the label to store the count value in.
+			// The aggregation drops the metric name first,
+			// then the count value is stored in the label named by Param (which can be __name__).
+			s = excludeMetricName(s, n)
 			s = includeLabel(s, stringArg(n.Param))
 			s = guaranteeLabel(s, stringArg(n.Param))
-			s = excludeMetricName(s, n)
 			src = append(src, s)
 		}
 	case promParser.QUANTILE:
